@@ -62,6 +62,9 @@ func (t *Tape) Draw(n int) int {
 	} else {
 		v = splitmix(&t.state) % uint64(n)
 	}
+	if len(t.Rec) > 1<<22 {
+		panic("sim.Tape: more than 4M draws in one run (unbounded draw loop in a generator?)")
+	}
 	t.Rec = append(t.Rec, v)
 	return int(v)
 }
